@@ -214,6 +214,8 @@ struct SessionState {
     deferred_read: DeferredRead,
     last_recorded_time: Option<tokio::time::Instant>,
     last_broadcast_type: Option<BroadcastConfirmMode>,
+    /// true once a response has carried IIN1.0 for `last_broadcast_type`
+    broadcast_reported: bool,
 }
 
 impl SessionState {
@@ -228,6 +230,7 @@ impl SessionState {
             deferred_read: DeferredRead::new(max_read_headers),
             last_recorded_time: None,
             last_broadcast_type: None,
+            broadcast_reported: false,
         }
     }
 
@@ -756,7 +759,7 @@ impl OutstationSession {
         match self.classify(info, request) {
             FragmentType::UnsolicitedConfirm(seq) => {
                 if seq == uns_ecsn {
-                    self.state.last_broadcast_type = None;
+                    self.clear_reported_broadcast();
                     self.info.unsolicited_confirmed(seq);
                     Ok(UnsolicitedWaitResult::Complete(
                         UnsolicitedResult::Confirmed,
@@ -771,7 +774,7 @@ impl OutstationSession {
             }
             FragmentType::SolicitedConfirm(_) => {
                 if let Some(BroadcastConfirmMode::Mandatory) = self.state.last_broadcast_type {
-                    self.state.last_broadcast_type = None
+                    self.clear_reported_broadcast();
                 } else {
                     tracing::warn!("ignoring solicited confirm");
                 }
@@ -1905,6 +1908,8 @@ impl OutstationSession {
 
             if mode != BroadcastConfirmMode::Mandatory {
                 self.state.last_broadcast_type = None;
+            } else {
+                self.state.broadcast_reported = true;
             }
         }
 
@@ -1922,6 +1927,7 @@ impl OutstationSession {
         request: Request<'_>,
     ) {
         self.state.last_broadcast_type = Some(mode);
+        self.state.broadcast_reported = false;
         let action = self
             .process_broadcast_get_action(frame_id, database, request)
             .await;
@@ -2006,6 +2012,15 @@ impl OutstationSession {
         }
     }
 
+    /// a confirmation ends the broadcast indication only if some response has
+    /// actually reported it, otherwise the master would never learn about it
+    fn clear_reported_broadcast(&mut self) {
+        if self.state.broadcast_reported {
+            self.state.last_broadcast_type = None;
+            self.state.broadcast_reported = false;
+        }
+    }
+
     fn new_confirm_deadline(&self) -> tokio::time::Instant {
         self.config.confirm_timeout.deadline_from_now()
     }
@@ -2030,7 +2045,7 @@ impl OutstationSession {
                 .await?
             {
                 Confirm::Yes(respond_to) => {
-                    self.state.last_broadcast_type = None;
+                    self.clear_reported_broadcast();
 
                     database
                         .clear_written_events(self.application.as_mut())
